@@ -91,6 +91,9 @@ func (c *Ctx) add(rule, construct string, pos token.Pos, v Verdict, msg string) 
 		}
 		return
 	}
+	if pre := os.Getenv("VTRACE"); pre != "" && strings.HasPrefix(rule, pre) {
+		fmt.Fprintf(os.Stderr, "VTRACE %v %s %s: %s\n", v, rule, construct, msg)
+	}
 	if ri := c.Rules[rule]; ri != nil {
 		ri.Count++
 	} else {
